@@ -23,6 +23,7 @@ Differences to `Oracle.checkRewrite`:
   checks (a collapsed operand inside a divisor changes whether the divisor is constant).
 -/
 import Rooc.Oracle
+import Rooc.ExpShape
 namespace Rooc
 namespace OracleC10
 open Sem Oracle
@@ -138,7 +139,11 @@ def checkRewrite (e e' : Exp (Ext Rat)) : Sexp :=
   else if allVals.any (fun v => v != 0 && (absR v < tiny || absR v > huge)) then
     Sexp.app "ok" [.atom "skipped-float-range"]
   else
-  match asg.find? (fun a => logicOperands01 (lookup a) e && bad a) with
+  -- region covered by the theorems: `simplify_sound_partial` (operands of and/or nodes are 0/1 at the
+  -- assignment) and `simplify_eval_eq` (no and/or node collapses to a non-logic operand — the very
+  -- predicate `Exp.collapsesNonbinary` of the theorem, domain-independent instance)
+  let noCollapse := !(Exp.collapsesNonbinary (fun _ => false) e)
+  match asg.find? (fun a => (noCollapse || logicOperands01 (lookup a) e) && bad a) with
   | some a => report "value" a
   | none =>
     if protDiv e && !(hasDivByBad e') && !(hasNonFinite e) then Sexp.app "violation" [.atom "division-erased"]
